@@ -86,6 +86,10 @@ type kpInner struct {
 	Any   interface{}
 	priv  string
 	Named kpName
+	// a repeated field whose elements are of a named string type, and a field name that does not start with an ASCII letter
+	NamedKeys []kpName
+	Überweg   string
+	Ключи     []string
 }
 type kpName string
 type kpEmb struct{ Key2 string }
@@ -128,7 +132,8 @@ func kpTwinB() interface{} {
 }
 
 func kpCorpus() []interface{} {
-	in := &kpInner{Key: "k", Keys: []string{"a", "b"}, Num: 3, Blob: []byte("xy"), Next: &kpInner{Key: "n"}, Any: &kpInner{Key: "any"}, priv: "p", Named: "nm"}
+	in := &kpInner{Key: "k", Keys: []string{"a", "b"}, Num: 3, Blob: []byte("xy"), Next: &kpInner{Key: "n", NamedKeys: []kpName{"nn"}, Überweg: "u2"}, Any: &kpInner{Key: "any"}, priv: "p", Named: "nm",
+		NamedKeys: []kpName{"n1", "n2"}, Überweg: "ue", Ключи: []string{"к1", "к2"}}
 	pin := in
 	return []interface{}{
 		nil, in, *in, (*kpInner)(nil), "str", 42, []string{"x"}, map[string]string{"a": "b"},
@@ -146,7 +151,8 @@ func kpCorpus() []interface{} {
 var kpLocators = []string{"", "key", "Key", "keys", "num", "blob", "arr", "m", "next.key", "next.next.key", "any.key", "any", "priv", "named",
 	"name", "items.key", "items.keys", "vals.key", "ifs.key", "ifs", "pP.key", "pP", "f", "key2", "dup", "own", "kpInner.key", "kpEmb.key2",
 	"channelPool.maxSize", "method.name", "method.affinity.affinityKey", "method.affinity", "nestedField.key", "nestedField.repeatedString",
-	"repeatedField.key", "repeatedString", "repeatedInt", "key.x", "next..key", ".key", "key.", "next.", "..", "items", "x-y", "next key", "_x", "9a", "next.Key", "NEXT.KEY", "id", "child.key", "extra"}
+	"repeatedField.key", "repeatedString", "repeatedInt", "key.x", "next..key", ".key", "key.", "next.", "..", "items", "x-y", "next key", "_x", "9a", "next.Key", "NEXT.KEY", "id", "child.key", "extra",
+	"namedKeys", "next.namedKeys", "items.namedKeys", "Überweg", "next.Überweg", "Ключи", "vals.Überweg", "Überweg.x"}
 
 // ---- random shapes built with reflect
 
